@@ -12,4 +12,4 @@ LEVEL_NOTE = "necessary conditions only"
 
 
 def run(ctx):
-    g_sync.run_all(ctx, ["Y1", "Y2", "Y3", "Y4", "O4"])
+    g_sync.run_all(ctx, ["Y1", "Y1c", "Y2", "Y3", "Y4", "O4", "O5"])
